@@ -141,7 +141,7 @@ func (x *Exec) enterLoopHeader(cfg *Config, f *Frame, from, to *ssa.BasicBlock, 
 	}
 	if all {
 		for _, name := range sortedKeys(st.heap) {
-			if strings.HasPrefix(name, "$held") {
+			if strings.HasPrefix(name, "$held") || name == "$top" {
 				continue
 			}
 			st.heap[name] = x.d.Fresh(fmt.Sprintf("L%d!%s", ord, name), st.heap[name].Sort)
@@ -149,6 +149,9 @@ func (x *Exec) enterLoopHeader(cfg *Config, f *Frame, from, to *ssa.BasicBlock, 
 		x.note("loop %d of %s havocs the whole heap", ord, fullKey(x.fn))
 	} else {
 		for _, name := range sortedKeys(st.heap) {
+			if name == "$top" {
+				continue // only ever grows: handled below
+			}
 			if mods[name] || mods[strings.SplitN(name, "!len", 2)[0]] || mods[strings.SplitN(name, "!at", 2)[0]] {
 				prev := st.heap[name]
 				st.heap[name] = x.d.Fresh(fmt.Sprintf("L%d!%s", ord, name), st.heap[name].Sort)
@@ -322,7 +325,12 @@ func (x *Exec) loopModSet(h *ssa.BasicBlock) (map[string]bool, bool) {
 				return // unknown function value: assumed not to touch module state
 			}
 			if _, ok := models[ssaFullName(callee)]; ok {
-				x.modelMods(mods)
+				n := ssaFullName(callee)
+				if strings.Contains(n, "Lock") || strings.Contains(n, "Wait") || strings.Contains(n, "Cond") {
+					x.modelMods(mods)
+				} else {
+					mods["$top"] = true
+				}
 				return
 			}
 			body := callee
